@@ -1084,11 +1084,10 @@ def run(chk, arim, rng, quick):
                 else:
                     two = True
         if end_number is not None and tuple(tshape) != (n, m) and not two:
-            # RESTRICTION (the model is the unfaithful side): with a number at an end of the FermatPath AND
-            # times.shape != interior_indices.shape[1:], Rays.__init__ (ray.py:296-300, a chained comparison) raises
-            # AssertionError before len(points[0]) is evaluated; rays_init answers OtherError (ends_len first)
-            end_number = None
-            chk.count(tie_C01="rays:restricted(end-number+shape)")
+            # a number at an end of the FermatPath AND times.shape != interior_indices.shape[1:]: Rays.__init__
+            # (ray.py:296-300, a chained comparison) raises AssertionError before len(points[0]) is evaluated; rays_init
+            # compares the two shapes first as well (generated and compared like every other case)
+            chk.count(tie_C01="rays:end-number+shape")
         rays_case(cloud, seq_ids, vs, two, tshape, (d, n, m), pick([8, 16, 32, 32, 64]), ri(0, 2), ri(0, 2), pick([0, 0, 1, 2]), kind,
                   end_number=end_number)
 
